@@ -266,7 +266,7 @@ def _sym_worker(pid, hname, tier, conn, quick_ms, roots=None):
                 cons = base + [o['bad']]
                 if o['kind'] == 'check':
                     tc = time.time()
-                    ok, info = algcert.try_certify(base, o['bad'], tag=('path', pi))
+                    ok, info = algcert.try_certify(base, o['bad'], tag=('path', pi), budget_s=h.algcert_s)
                     if ok:
                         result['records'].append(dict(path=pi, name=o['name'], kind=o['kind'], status='unsat',
                                                       by='z3-5.1 (algebraic certificate)', secs=round(time.time() - tc, 3)))
